@@ -2,6 +2,7 @@ package props
 
 import (
 	"fmt"
+	"time"
 	"math/rand/v2"
 	"net/netip"
 
@@ -180,6 +181,37 @@ func (c07) Check(out *sim.Outcome, ri *RunInfo) []Violation {
 				if got.IP != netip.MustParseAddr(exp.Addr) || got.IsDest != exp.Dest || int(got.TTL) != t || got.RTT.Microseconds() != exp.RTTUs {
 					vs = append(vs, Violation{Rule: "C07.fold-mismatch", Detail: fmt.Sprintf("ttl %d: reference keeps %s dest=%v rtt=%dus, result has %s dest=%v rtt=%v (ttl field %d)", t, exp.Addr, exp.Dest, exp.RTTUs, got.IP, got.IsDest, got.RTT, got.TTL)})
 				}
+			}
+		}
+		// the receiver keeps polling until the deadline: every response that became eligible at least
+		// one poll interval before it must have been handed out ("every reply ... before the
+		// deadline is reflected"), also after a destination response
+		if len(cs.Driver.Sends) > 0 && c.Script.RetryableEvery == 0 {
+			deadline := cs.Driver.Sends[0].CallAt + ms(c.TimeoutMs) + time.Duration(c.MaxTTL-c.MinTTL+1)*ms(c.DelayMs)
+			handed := map[int]bool{}
+			for _, h := range cs.Driver.Handed {
+				handed[h.Resp] = true
+			}
+			for ri, r := range c.Script.Responses {
+				if handed[ri] {
+					continue
+				}
+				var sent *sim.DrvSend
+				for _, sd := range cs.Driver.Sends {
+					if sd.TTL == r.AfterSend {
+						sent = sd
+					}
+				}
+				if sent == nil {
+					continue
+				}
+				el := sent.RelAt + time.Duration(r.DelayUs)*time.Microsecond
+				if el <= deadline-ms(c.PollMs)-time.Millisecond {
+					vs = append(vs, Violation{Rule: "C07.missed-handout", Detail: fmt.Sprintf("response %d (ttl %d, %s) was available from %v, more than a poll interval before the deadline %v, but ReceiveProbe was never called again to fetch it (%d hand-outs)", ri, r.TTL, r.Addr, el, deadline, len(cs.Driver.Handed))})
+					break
+				}
+				ri0 := ri
+				_ = ri0
 			}
 		}
 		// sender stops after the destination was handed out (one in flight excepted)
